@@ -99,6 +99,7 @@ func (w *Servers) Node(id uint64) *world.SNode {
 
 // Close ends the execution and releases the disks.
 func (w *Servers) Close() {
+	defer collect()
 	w.S.End()
 	for _, n := range w.Nodes {
 		n.Close()
